@@ -10,6 +10,7 @@ concurrent callers (more than one only with a batching wrapper), each calling ev
 """
 from __future__ import annotations
 
+import functools
 import json
 import math
 import threading
@@ -110,10 +111,78 @@ def build_circuit(n, gates, n_params, name="c", metadata=None):
 
 
 # ----------------------------------------------------------------------------------------------- objectives
-def build_operator(n, terms):
+JSSP_SPECS = [  # (jobs as [(machine, duration), ...], makespan limit): 2-4 qubits, 20-40 unsimplified terms with 4-11 distinct strings
+    ([[("m0", 1), ("m1", 1)]], 3),
+    ([[("m0", 1)], [("m0", 1)]], 3),
+    ([[("m0", 1), ("m1", 1)], [("m1", 1)]], 3),
+    ([[("m0", 1), ("m1", 1)]], 4),
+]
+
+
+@functools.lru_cache(maxsize=None)
+def jssp_hamiltonian(spec_index):
+    """The library's own (unsimplified) JSSP problem Hamiltonian of a tiny instance, with dyadic penalties."""
+    from queasars.job_shop_scheduling.domain_wall_hamiltonian_encoder import JSSPDomainWallHamiltonianEncoder
+    from queasars.job_shop_scheduling.problem_instances import Job, JobShopSchedulingProblemInstance, Machine, Operation
+
+    spec, limit = JSSP_SPECS[spec_index]
+    jobs = tuple(Job(f"j{ji}", tuple(Operation(f"o{k}", f"j{ji}", Machine(m), d) for k, (m, d) in enumerate(ops))) for ji, ops in enumerate(spec))
+    inst = JobShopSchedulingProblemInstance("i", (Machine("m0"), Machine("m1")), jobs)
+    enc = JSSPDomainWallHamiltonianEncoder(inst, limit, encoding_penalty=4, overlap_constraint_penalty=2, precedence_constraint_penalty=2, max_opt_value=1)
+    return enc.n_qubits, enc.get_problem_hamiltonian()
+
+
+def operator_terms(op):
+    """Every term of a SparsePauliOp, unsimplified and in order, as [coefficient (Fraction string), [[qubit, letter], ...]]."""
+    out = []
+    for label, qubits, coeff in op.to_sparse_list():
+        assert abs(complex(coeff).imag) < 1e-15
+        out.append([str(Fraction(float(complex(coeff).real))), [[int(q), l] for q, l in zip(qubits, label)]])
+    return out
+
+
+def build_operator(n, objective):
+    """objective["form"]: "plain" (from_sparse_list + simplify), "dup" (from_sparse_list, NOT simplified: repeated strings,
+    cancelling pairs, repeated identity), "sum" (SparsePauliOp.sum of one-term operators, not simplified), "jssp" (the
+    library's JSSPDomainWallHamiltonianEncoder(...).get_problem_hamiltonian(), unsimplified).  objective["op"] always lists
+    every term; the objective is the SUM over all of them."""
     from qiskit.quantum_info import SparsePauliOp
 
-    return SparsePauliOp.from_sparse_list([("".join(p for _, p in t), [q for q, _ in t], float(Fraction(c))) for c, t in terms], n).simplify() if terms else SparsePauliOp("I" * n, [0.0])
+    terms, form = objective["op"], objective.get("form", "plain")
+    if form == "jssp":
+        nq, op = jssp_hamiltonian(objective["jssp"])
+        assert nq == n
+        return op
+    sparse = [("".join(p for _, p in t), [q for q, _ in t], float(Fraction(c))) for c, t in terms]
+    if not sparse:
+        return SparsePauliOp("I" * n, [0.0])
+    if form == "sum":
+        return SparsePauliOp.sum([SparsePauliOp.from_sparse_list([t], n) for t in sparse])
+    op = SparsePauliOp.from_sparse_list(sparse, n)
+    return op.simplify() if form == "plain" else op
+
+
+def gen_objective_op(rng, n, letters, diagonal):
+    """Operator objective with a named form (tallied as opform:<form>)."""
+    form = rng.choice(["plain", "plain", "dup", "dup", "sum"] + (["jssp", "jssp"] if diagonal else []))
+    if form == "jssp":
+        fits = [i for i in range(len(JSSP_SPECS)) if jssp_hamiltonian(i)[0] == n]
+        if fits:
+            k = rng.choice(fits)
+            return {"op": operator_terms(jssp_hamiltonian(k)[1]), "form": "jssp", "jssp": k}
+        form = "dup"
+    terms = gen_terms(rng, n, letters)
+    if form in ("dup", "sum"):
+        base = list(terms)
+        for _ in range(rng.randint(1, 3)):  # the same Pauli string again, with another weight
+            c, t = rng.choice(base)
+            terms.append([str(Fraction(rng.randint(-8, 8), rng.choice([1, 2, 4]))), [list(x) for x in t]])
+        c, t = rng.choice(base)  # a pair cancelling to zero
+        w = Fraction(rng.randint(1, 8), 2)
+        terms += [[str(w), [list(x) for x in t]], [str(-w), [list(x) for x in t]]]
+        terms += [[str(Fraction(rng.randint(-4, 4), 2)), []], [str(Fraction(rng.randint(1, 4), 4)), []]]  # identity twice
+        rng.shuffle(terms)
+    return {"op": terms, "form": form}
 
 
 def gen_terms(rng, n, letters):
@@ -259,7 +328,7 @@ def gen_case(rng, family, kind, shape_name, shape):
     case = {"family": family, "kind": kind, "n": n, "n_params": n_params, "init": init, "callers": callers,
             "stack_name": shape_name, "stack": gen_stack(rng, n, shape)}
     if kind == "est":
-        case["objective"] = {"op": gen_terms(rng, n, ["X", "Y", "Z"])}
+        case["objective"] = gen_objective_op(rng, n, ["X", "Y", "Z"], diagonal=False)
     else:
         case["alpha"] = rng.choice(["1", "1/2", "1/4"])
         if family == "classical":
@@ -269,7 +338,7 @@ def gen_case(rng, family, kind, shape_name, shape):
             case["sampler_mode"] = rng.choice(["fractional", "fractional", "integer"])
             case["shots"] = rng.choice([1 << 10, 1 << 14]) if case["sampler_mode"] == "fractional" else 1 << 16
         if kind == "opsampler":
-            case["objective"] = {"op": gen_terms(rng, n, ["Z"])}
+            case["objective"] = gen_objective_op(rng, n, ["Z"], diagonal=True)
         else:
             case["objective"] = {"table": [str(Fraction(rng.randint(-16, 16), rng.choice([1, 2, 4]))) for _ in range(2 ** n)]}
     return case
@@ -309,10 +378,10 @@ def run_impl(case, timeout=90.0):
     def make_evaluator(ci):
         init = build_circuit(n, case["init"], 0, name="init", metadata={"caller": ci}) if case["init"] is not None else None
         if kind == "est":
-            return OperatorCircuitEvaluator(prim, 0.0, build_operator(n, case["objective"]["op"]), initial_state_circuit=init)
+            return OperatorCircuitEvaluator(prim, 0.0, build_operator(n, case["objective"]), initial_state_circuit=init)
         alpha = float(Fraction(case["alpha"]))
         if kind == "opsampler":
-            return OperatorSamplerCircuitEvaluator(prim, case["shots"], build_operator(n, case["objective"]["op"]), alpha=alpha, initial_state_circuit=init)
+            return OperatorSamplerCircuitEvaluator(prim, case["shots"], build_operator(n, case["objective"]), alpha=alpha, initial_state_circuit=init)
         table = [float(Fraction(x)) for x in case["objective"]["table"]]
         return BitstringCircuitEvaluator(prim, case["shots"], BitstringEvaluator(n, lambda b: table[int(b, 2)]), alpha=alpha, initial_state_circuit=init)
 
@@ -358,7 +427,7 @@ def oracle_values(case, ci):
         full = init.compose(qc) if init is not None else qc
         sv = Statevector(full)
         if kind == "est":
-            op = build_operator(n, case["objective"]["op"])
+            op = build_operator(n, case["objective"])
             v = float(sv.expectation_value(op).real)
             scale = sum(abs(Fraction(c)) for c, _ in case["objective"]["op"])
             out.append((v, 1e-9 * max(1.0, float(scale))))
@@ -539,7 +608,7 @@ def probe_concurrent_transpile(ctx, case):
     from queasars.circuit_evaluation.circuit_evaluation import OperatorCircuitEvaluator
 
     n, gates_list = case["n"], case["circuits"]
-    op = build_operator(n, case["objective"]["op"])
+    op = build_operator(n, case["objective"])
     circuits = [build_circuit(n, g, 0, name=f"c{i}") for i, g in enumerate(gates_list)]
     want = [float(Statevector(c).expectation_value(op).real) for c in circuits]
     pm = build_pass_manager(case["pm"])
@@ -641,6 +710,11 @@ def run(ctx):
         ctx.tally("init:" + ("yes" if case["init"] is not None else "no"))
         if "alpha" in case:
             ctx.tally("alpha:" + case["alpha"])
+        if "op" in case["objective"]:
+            ctx.tally("opform:" + case["objective"].get("form", "plain"))
+            labels = [json.dumps(sorted(t)) for _, t in case["objective"]["op"]]
+            if len(set(labels)) < len(labels):
+                ctx.tally("operator-with-repeated-pauli-strings" + (":opsampler:alpha<1" if case["kind"] == "opsampler" and case["alpha"] != "1" else ""))
         got = do_case(ctx, case)
         ctx.case(fingerprint(case), nontrivial(case), sample={k: case[k] for k in ("family", "kind", "n", "stack_name", "init", "callers", "objective")} if len(ctx.samples) < 3 else None)
         for ci, lit, legacy_lit in got:
